@@ -66,6 +66,11 @@ impl FromStr for Decimal {
       let (decimal, scale) = if decimal.is_empty() {
         (0, 0)
       } else {
+        ensure!(
+          decimal.bytes().all(|byte| byte.is_ascii_digit()),
+          "invalid fractional digits `{decimal}`",
+        );
+
         let trailing_zeros = decimal.chars().rev().take_while(|c| *c == '0').count();
         let significant_digits = decimal.chars().count() - trailing_zeros;
         let decimal = decimal.parse::<u128>()?
